@@ -7,8 +7,9 @@ Tie:
       distance_is_cost_of_returned_flux, fault_flags_nonconverged, fault_returns_last_valid_iterate) and the
       algebra of the mass balance (lambda_zero, mass_balance_of_solution, newton_preserves_balance,
       affine/anderson_preserves_balance, pressure pinned) over an abstract divergence with 1^T D = 0.
-  C   fault-injection correspondence: the real solver is run with `linear_solve` (failure before the update) or
-      the Anderson object (failure after the update) of the live solver object wrapped to raise at pass j;
+  C   fault-injection correspondence: the real solver is run with one attribute of the live solver object (jacobian,
+      _update_regularization, linear_solve, setup_*_solver, _shrink, anderson, l1_dissipation, _analyze_timings) or a
+      tolerance object used by the stopping criteria wrapped to raise at pass j;
       (converged, number_iterations, distance == cost of the returned flux, which iterate is returned) are
       compared with the loop model's prediction for the reconstructed event sequence.
   O   oracle on every run: ||D u - f||_inf <= tol, distance == l1_dissipation(returned flux), aux outputs
@@ -21,28 +22,41 @@ import inspect
 import textwrap
 import warnings
 
+from fractions import Fraction
+
 import numpy as np
 
+from ..lib.core import fmt
 from ..lib.impl import Raised, call
 
 LEVEL = "proof"
 CLAIM = dict(
     category="proof",
-    text="Status part: Lean theorems about a step-function model of the two _solve loops, for EVERY event sequence "
-    "(ok criteriaMet | failBeforeUpdate | failAfterUpdate | nan at each pass) and EVERY num_iter: converged => the last executed "
-    "pass completed with the stopping criteria met (iter > 1) and all earlier passes completed; reported distance = cost of exactly "
-    "the returned iterate; a fault at any reached pass => converged = False, number_iterations = that pass, solution and distance "
-    "= last valid iterate; status defined also for num_iter = 0. The shape of the loops the theorems talk about (explicit flag set "
-    "only on the criteria break, handler restoring iterate and distance, distance initialised from the initial flux) is extracted "
-    "from the AST of the running code on every check and discharged by decide; the negations for the code as found are proved with "
-    "witnesses. Algebraic part (any field, any finite grid, abstract divergence D with 1^T D = 0, any weights): second block row "
-    "=> multiplier 0 and D u = f; invariance under any number of Newton updates; Anderson mixing / affine combinations preserve the "
-    "balance; pressure pinned. Tie: fault-injection correspondence of the real solvers (wrapping linear_solve / the Anderson object "
-    "of a live solver, no source hook) against the model's prediction, and a per-run oracle (mass balance to linear-solver "
-    "precision, distance == l1_dissipation(returned flux), aux outputs recomputed from the captured flat solution, honest status).",
+    text="Status part: Lean theorems about a step-function model of the two _solve loops whose try body is the list of statements "
+    "in source order EXTRACTED FROM THE AST on every check (label of each call: assembling, regularisation update, inner linear solve, "
+    "shrink, Anderson mixing, distance evaluation, history/timings, stopping criteria, commit; effect on the returned iterate / "
+    "distance; what the handler restores; how converged, the distance and the loop variable are initialised). For EVERY event "
+    "sequence (ok criteriaMet | fail at ANY statement of ANY body | nan at each pass) and EVERY num_iter: converged => the last "
+    "executed pass completed with the stopping criteria met (iter > 1) and all earlier passes completed; reported distance = cost "
+    "of exactly the returned iterate; a fault at any statement of any reached pass => converged = False, number_iterations = that "
+    "pass, solution and distance = last valid iterate (fault_point_irrelevant); status defined also for num_iter = 0. The soundness "
+    "of the extracted shape is a decide obligation; the negations for the code as found are proved with witnesses (there the program "
+    "point WAS observable). Algebraic part (any field, any finite grid, abstract divergence D with 1^T D = 0, any weights): second "
+    "block row => multiplier 0 and D u = f; invariance under any number of Newton updates; Anderson mixing / affine combinations "
+    "preserve the balance; pressure pinned. Tie: fault-injection correspondence of the real solvers at NINE program points (jacobian "
+    "assembly, regularisation update, inner linear solve, solver setup on first use, shrink, Anderson call, l1_dissipation, timing "
+    "bookkeeping after the distance update, evaluation of the stopping criteria) by wrapping attributes of the live solver object / "
+    "a raising tolerance object (no source hook) against the model's prediction, and a per-run oracle (mass balance to linear-solver "
+    "precision, distance == l1_dissipation(returned flux), aux outputs recomputed from the captured flat solution, honest status). "
+    "Auxiliary outputs: WAux.callOut models the output assembly of __call__ on the finite-volume model of C05/C06 (face_to_cell at the "
+    "cell centre, cell weighting, order-F pressure reshape, transport density, distance); aux_from_solution / "
+    "aux_flux_outputs_from_flux_dofs / aux_pressure_reshape / aux_distance_is_integral_of_density prove that they are functions of "
+    "the returned flat solution only (flux-type outputs of the flux dofs, pressure of the pressure dofs, pinned cell at decF k); tied "
+    "by a correspondence in which _solve of a live solver is stubbed with a dyadic flat solution: cell flux, weighted flux and "
+    "pressure equal the model exactly, the transport density equals sum_q w_q sqrt(model's rational squared norm) to 64 eps.",
     note="1^T D = 0 for the concrete FV divergence is property C06/C07 (here a hypothesis and, per run, a measured fact); linear-solver "
-    "accuracy and the Euclidean norm in the cost are evaluated in float; exceptions are injected at two program points "
-    "(inner linear solve, Anderson mixing) - other raise points are covered by the model, not by injection.",
+    "accuracy and the Euclidean norm in the cost are evaluated in float; after a fault in the bookkeeping of a pass the "
+    "convergence_history keeps the entry of the failed pass (not judged).",
     technique="Lean 4 proofs (invariant over the loop model; Finset algebra) + AST extraction (G2) + fault-injection correspondence + oracle",
 )
 
@@ -65,93 +79,172 @@ def _names_assigned(stmts):
     return out
 
 
-def extract_shape(cls):
-    """'asFound' | 'repaired' | 'unknown' plus a description, from the AST of cls._solve."""
+CALL_LABEL = [("_update_regularization", "regularisation"), ("residual", "assemble"), ("jacobian", "assemble"),
+              ("linear_solve", "linearSolve"), ("_shrink", "shrink"), ("anderson", "anderson"), ("l1_dissipation", "distance"),
+              ("_analyze_timings", "timings")]
+
+
+def _self_calls(node):
+    out = []
+    for n in ast.walk(node):
+        if isinstance(n, ast.Call) and isinstance(n.func, ast.Attribute) and isinstance(n.func.value, ast.Name) and n.func.value.id == "self":
+            out.append(n.func.attr)
+    return out
+
+
+def _assigned_roots(node):
+    """names that are (re)bound or written through a subscript anywhere in the statement"""
+    out = []
+    for n in ast.walk(node):
+        if isinstance(n, (ast.Assign, ast.AugAssign)):
+            for t in (n.targets if isinstance(n, ast.Assign) else [n.target]):
+                for e in (t.elts if isinstance(t, ast.Tuple) else [t]):
+                    while isinstance(e, ast.Subscript):
+                        e = e.value
+                    if isinstance(e, ast.Name):
+                        out.append(e.id)
+    return out
+
+
+def _is_criteria(st, it):
+    if not isinstance(st, ast.If) or not any(isinstance(n, ast.Break) for n in ast.walk(st)):
+        return False
+    t = st.test
+    first = t.values[0] if isinstance(t, ast.BoolOp) and isinstance(t.op, ast.And) else None
+    return first is not None and ast.unparse(first) == f"{it} > 1"
+
+
+def _bodies(stmts, it, tracked):
+    """alternative statement lists (label, effect) of a try body, in source order"""
+    alts = [[]]
+    for st in stmts:
+        if isinstance(st, ast.With):
+            sub = _bodies(st.body, it, tracked)
+            alts = [a + b for a in alts for b in sub]
+            continue
+        if isinstance(st, ast.If) and st.orelse and "linear_solve" in _self_calls(ast.Module(body=st.body, type_ignores=[])) \
+                and "linear_solve" in _self_calls(ast.Module(body=st.orelse, type_ignores=[])):
+            sub = _bodies(st.body, it, tracked) + _bodies(st.orelse, it, tracked)
+            alts = [a + b for a in alts for b in sub]
+            continue
+        calls = _self_calls(st)
+        roots = _assigned_roots(st)
+        label = next((lab for name, lab in CALL_LABEL if name in calls), None)
+        effect = "none"
+        if _is_criteria(st, it):
+            label, effect = "criteria", "criteria"
+        elif tracked in roots:
+            effect = "writeSol"
+            label = label or "setSolution"
+        elif "new_distance" in roots:
+            effect = "writeDist"
+            label = label or "setDistance"
+        elif label is None:
+            src = ast.unparse(st)
+            if isinstance(st, ast.If) and "isnan" in src:
+                label = "nanCheck"
+            elif "convergence_history" in src and ".append(" in src and "history" not in [l for l, _ in alts[0][-1:]]:
+                label = "history"
+            elif any(r.startswith("old_") for r in roots) and "commit" not in [l for l, _ in alts[0][-1:]]:
+                label = "commit"
+        if label is not None:
+            alts = [a + [(label, effect)] for a in alts]
+    return alts
+
+
+def extract_code(cls):
+    """AST of cls._solve -> dict(bodies, restoreSol, restoreDist, flagOnBreak, distInit, iterInit, why)"""
+    code = dict(bodies=[], restoreSol=False, restoreDist=False, flagOnBreak=False, distInit=False, iterInit=False, why=[])
     try:
         fn = ast.parse(textwrap.dedent(inspect.getsource(cls._solve))).body[0]
     except (OSError, TypeError, SyntaxError, IndexError) as e:
-        return "unknown", f"source unavailable: {e}"
+        code["why"].append(f"source unavailable: {e}")
+        return code
     loop = next((n for n in fn.body if isinstance(n, ast.For) and isinstance(n.target, ast.Name)), None)
     if loop is None:
-        return "unknown", "no top-level for loop"
+        code["why"].append("no top-level for loop")
+        return code
     it = loop.target.id
     pre = fn.body[: fn.body.index(loop)]
     post = fn.body[fn.body.index(loop) + 1:]
+    tries = [n for n in loop.body if isinstance(n, ast.Try)]
+    if len(tries) != 1 or len(tries[0].handlers) != 1:
+        code["why"].append("loop body is not a single try/except")
+        return code
+    tr, handler = tries[0], tries[0].handlers[0]
+    if not any(isinstance(n, ast.Break) for n in handler.body):
+        code["why"].append("handler does not break")
+        return code
+    # which variable is the returned iterate: the flux if the solution is rebuilt from it after the loop
+    post_src = "\n".join(ast.unparse(x) for x in post)
+    tracked = "flux" if "flux.copy()" in post_src or "= flux" in post_src else "solution_i"
+    code["tracked"] = tracked
+    code["bodies"] = _bodies(tr.body, it, tracked)
+    # converged
     conv = None
     for st in post:
         if isinstance(st, ast.Assign) and isinstance(st.value, ast.Dict):
             for k, v in zip(st.value.keys, st.value.values):
                 if isinstance(k, ast.Constant) and k.value == "converged":
                     conv = v
-    if conv is None:
-        return "unknown", "no info['converged'] after the loop"
-    tries = [n for n in loop.body if isinstance(n, ast.Try)]
-    if len(tries) != 1 or len(tries[0].handlers) != 1:
-        return "unknown", "loop body is not a single try/except"
-    tr, handler = tries[0], tries[0].handlers[0]
-    handler_breaks = any(isinstance(n, ast.Break) for n in handler.body)
-    if not handler_breaks:
-        return "unknown", "handler does not break"
-    if isinstance(conv, ast.Compare):
-        txt = ast.unparse(conv)
-        if txt == f"{it} < num_iter - 1":
-            return "asFound", f"converged = {txt}"
-        return "unknown", f"converged = {txt}"
-    if not isinstance(conv, ast.Name):
-        return "unknown", f"converged = {ast.unparse(conv)}"
-    flag = conv.id
-    # (a) flag = False before the loop, (b) exactly one `flag = True`, in the try body, in an `if iter > 1 and ...: ...; break`
-    pre_assign = [n for name, n in _names_assigned(pre) if name == flag]
-    if not (pre_assign and all(isinstance(n, ast.Assign) and isinstance(n.value, ast.Constant) and n.value.value is False for n in pre_assign)):
-        return "unknown", f"{flag} is not initialised to False before the loop"
-    all_assign = [n for name, n in _names_assigned(fn.body) if name == flag]
-    trues = [n for n in all_assign if isinstance(n, ast.Assign) and isinstance(n.value, ast.Constant) and n.value.value is True]
-    if len(all_assign) != len(pre_assign) + 1 or len(trues) != 1:
-        return "unknown", f"{flag} is assigned in unexpected places"
-    ok_site = False
-    for node in ast.walk(tr):
-        if isinstance(node, ast.If) and trues[0] in node.body and isinstance(node.body[-1], ast.Break):
-            t = node.test
-            first = t.values[0] if isinstance(t, ast.BoolOp) and isinstance(t.op, ast.And) else None
-            if first is not None and ast.unparse(first) == f"{it} > 1" and not node.orelse:
-                ok_site = True
-    in_try_body = any(trues[0] in list(ast.walk(st)) for st in tr.body)
-    if not (ok_site and in_try_body):
-        return "unknown", f"{flag} = True is not guarded by `if {it} > 1 and <criteria>: ...; break`"
-    # (c) handler restores the iterate and the distance from names bound before the try
+    if isinstance(conv, ast.Name):
+        flag = conv.id
+        pre_assign = [n for name, n in _names_assigned(pre) if name == flag]
+        all_assign = [n for name, n in _names_assigned(fn.body) if name == flag]
+        trues = [n for n in all_assign if isinstance(n, ast.Assign) and isinstance(n.value, ast.Constant) and n.value.value is True]
+        ok_pre = bool(pre_assign) and all(isinstance(n, ast.Assign) and isinstance(n.value, ast.Constant) and n.value.value is False for n in pre_assign)
+        ok_site = False
+        if len(all_assign) == len(pre_assign) + 1 and len(trues) == 1:
+            for node in ast.walk(tr):
+                if _is_criteria(node, it) and trues[0] in node.body and isinstance(node.body[-1], ast.Break) and not node.orelse:
+                    ok_site = True
+        code["flagOnBreak"] = ok_pre and ok_site
+        if not code["flagOnBreak"]:
+            code["why"].append(f"{flag} is not a flag set only next to the criteria break")
+    else:
+        code["why"].append("converged = " + (ast.unparse(conv) if conv is not None else "<missing>"))
+    # handler restores from names saved before the try (or carried from before the loop)
     h_assign = {name: n for name, n in _names_assigned(handler.body)}
-    restored = [n for n in ("solution_i", "flux") if n in h_assign and isinstance(h_assign[n].value, ast.Name)]
-    if "new_distance" not in h_assign or not isinstance(h_assign["new_distance"].value, ast.Name) or not restored:
-        return "unknown", "handler does not restore iterate and distance"
-    saved = {h_assign["new_distance"].value.id, h_assign[restored[0]].value.id}
     before_try = loop.body[: loop.body.index(tr)]
-    # saved at the top of the pass, or initialised before the loop and carried from pass to pass (Bregman's old_distance)
     saved_before = {name for name, _ in _names_assigned(before_try)} | {name for name, _ in _names_assigned(pre)}
-    if not saved <= saved_before:
-        return "unknown", f"handler restores from {sorted(saved)} which are not saved before the try"
-    # (d) distance initialised from the initial iterate, not the literal 0
+
+    def restored(name):
+        n = h_assign.get(name)
+        return n is not None and isinstance(n.value, ast.Name) and n.value.id in saved_before and n.value.id != name
+
+    code["restoreSol"] = restored(tracked)
+    code["restoreDist"] = restored("new_distance")
+    if not code["restoreSol"]:
+        code["why"].append(f"handler does not restore {tracked}")
+    if not code["restoreDist"]:
+        code["why"].append("handler does not restore new_distance")
     nd = [n for name, n in _names_assigned(pre) if name == "new_distance"]
-    if not nd or any(isinstance(n.value, ast.Constant) for n in nd if isinstance(n, ast.Assign)):
-        return "unknown", "new_distance is initialised with a constant"
-    # (e) the loop variable is bound before the loop (num_iter = 0)
-    if not any(name == it for name, _ in _names_assigned(pre)):
-        return "unknown", f"{it} unbound for num_iter = 0"
-    return "repaired", f"converged = {flag} (set on the criteria break only); handler restores {sorted(saved)}"
+    code["distInit"] = bool(nd) and not any(isinstance(n.value, ast.Constant) for n in nd if isinstance(n, ast.Assign))
+    if not code["distInit"]:
+        code["why"].append("new_distance is initialised with a constant")
+    code["iterInit"] = any(name == it for name, _ in _names_assigned(pre))
+    if not code["iterInit"]:
+        code["why"].append(f"{it} unbound for num_iter = 0")
+    return code
 
 
-def emit(shapes) -> str:
+def _lean_code(code) -> str:
+    bodies = ",\n     ".join("[" + ", ".join(f"⟨.{l}, .{e}⟩" for l, e in b) + "]" for b in code["bodies"])
+    fl = lambda k: "true" if code[k] else "false"
+    return ("{ bodies := [" + bodies + "],\n    restoreSol := " + fl("restoreSol") + ", restoreDist := " + fl("restoreDist") +
+            ", flagOnBreak := " + fl("flagOnBreak") + ", distInit := " + fl("distInit") + ", iterInit := " + fl("iterInit") + " }")
+
+
+def emit(codes) -> str:
     return "\n".join([
         "import DarsiaModel.SolveLoop", "namespace Darsia.Gen", "open Darsia.SolveLoop", "",
-        "/-- shape of `WassersteinDistanceNewton._solve`, extracted from its AST -/",
-        f"def newtonShape : Shape := .{shapes['newton'][0]}",
-        "/-- shape of `WassersteinDistanceBregman._solve`, extracted from its AST -/",
-        f"def bregmanShape : Shape := .{shapes['bregman'][0]}", "",
-        "def shapeOf : Method → Shape", "  | .newton => newtonShape", "  | .bregman => bregmanShape", "",
+        "/-- `WassersteinDistanceNewton._solve`: try-body statements in source order and handler / flag / initialisation facts,",
+        "extracted from its AST -/",
+        "def newtonCode : LoopCode :=\n  " + _lean_code(codes["newton"]), "",
+        "/-- `WassersteinDistanceBregman._solve` (body 0: regularisation update, body 1: relaxation step) -/",
+        "def bregmanCode : LoopCode :=\n  " + _lean_code(codes["bregman"]), "",
+        "def codeOf : Method → LoopCode", "  | .newton => newtonCode", "  | .bregman => bregmanCode", "",
         "end Darsia.Gen", ""])
-
-
-# ---------------------------------------------------------------------------------------------
-# running the real solver
 
 
 class Injected(RuntimeError):
@@ -184,6 +277,15 @@ def masses(cfg, rng_np):
     return m1, m2
 
 
+def tols(cfg):
+    """(tol_residual, tol_increment, tol_distance): `tol_mode` makes one criterion the binding one (the others are left at
+    their non-restrictive default) so that each clause of the stopping rule is exercised on its own"""
+    big = float(np.finfo(float).max)
+    mode = cfg.tol_mode or "all"
+    return (cfg.tol if mode in ("all", "residual") else big, cfg.tol if mode in ("all", "increment") else big,
+            cfg.tol if mode in ("all", "distance") else big)
+
+
 def build(d, cfg, num_iter=None):
     W = d.measure.wasserstein
     shape = tuple(cfg.shape)
@@ -201,7 +303,7 @@ def build(d, cfg, num_iter=None):
     opts = dict(
         return_info=True, num_iter=cfg.num_iter if num_iter is None else num_iter, formulation=cfg.formulation, linear_solver=cfg.solver,
         l1_mode=getattr(W.L1Mode, cfg.l1), mobility_mode=getattr(W.MobilityMode, cfg.mobility), aa_depth=cfg.aa,
-        tol_residual=cfg.tol, tol_increment=cfg.tol, tol_distance=cfg.tol,
+        tol_residual=tols(cfg)[0], tol_increment=tols(cfg)[1], tol_distance=tols(cfg)[2],
         L=cfg.L,
     )
     if cfg.solver in ("amg", "cg"):
@@ -212,20 +314,75 @@ def build(d, cfg, num_iter=None):
     return cls(grid, weight, opts), i1, i2, opts
 
 
-class RaisingAnderson:
-    def __init__(self, inner, at):
-        self.inner, self.at, self.n = inner, at, 0
+class RaisingCallable:
+    """wraps a bound method / callable object of the live solver; raises at its `at`-th call"""
+
+    def __init__(self, inner, at, what):
+        self.inner, self.at, self.n, self.what = inner, at, 0, what
 
     def __call__(self, *a, **k):
         n = self.n
         self.n += 1
         if n == self.at:
-            raise Injected("injected failure in Anderson acceleration")
+            raise Injected(f"injected failure in {self.what}")
         return self.inner(*a, **k)
 
 
+class FaultyTol(float):
+    """a tolerance whose use in the stopping criteria (`tol * history[0]`) raises at the `at`-th evaluation"""
+
+    def __new__(cls, value, at):
+        o = super().__new__(cls, value)
+        o.at, o.n = at, 0
+        return o
+
+    def __mul__(self, other):
+        n = self.n
+        self.n += 1
+        if n == self.at:
+            raise Injected("injected failure in the evaluation of the stopping criteria")
+        return float(self) * other
+
+
+# program points that can be made to raise from the harness (no source hook): label of the statement in the generated
+# loop body, attribute of the live solver object that is wrapped, and the call index that corresponds to pass j
+POINTS = ("assemble", "regularisation", "linearSolve", "setup", "shrink", "anderson", "distance", "timings", "criteria")
+POINT_LABEL = {"setup": "linearSolve"}
+
+
+def is_update_pass(cfg, j):
+    return cfg.method == "bregman_adaptive" and j % 2 == 1
+
+
+def injection(cfg, point, j):
+    """(attribute, call index) to make `point` raise in pass j, or None when that point is not executed in pass j"""
+    newton = cfg.method == "newton"
+    if point == "assemble":
+        return ("jacobian", j) if newton else None
+    if point == "regularisation":
+        return ("_update_regularization", (j - 1) // 2) if is_update_pass(cfg, j) else None
+    if point == "linearSolve":
+        return ("linear_solve", 1 + j)  # call 0 is the initial Darcy solve before the loop
+    if point == "setup":
+        attr = {"direct": "setup_direct_solver", "amg": "setup_amg_solver", "cg": "setup_cg_solver"}[cfg.solver]
+        if newton:
+            return (attr, 1 + j)  # Newton sets the solver up in every call
+        return (attr, 1) if j == 0 else None  # Bregman: first use inside the loop is pass 0, later passes reuse it
+    if point == "shrink":
+        return None if newton else ("_shrink", 1 + j)  # call 0 initialises the Bregman variables
+    if point == "anderson":
+        return ("anderson", j) if cfg.aa else None
+    if point == "distance":
+        return ("l1_dissipation", 1 + j)  # call 0 is the distance of the initial iterate
+    if point == "timings":
+        return ("_analyze_timings", j)
+    if point == "criteria":
+        return ("tol", j - 2) if j >= 2 else None  # the criteria are evaluated for iter > 1 only
+    return None
+
+
 def run_solver(d, cfg, fault=None, num_iter=None):
-    """fault = None | ('fb', j) | ('fa', j). Returns dict or Raised."""
+    """fault = None | (point, j). Returns dict or Raised."""
     def go():
         w, i1, i2, opts = build(d, cfg, num_iter)
         cap = {}
@@ -238,24 +395,23 @@ def run_solver(d, cfg, fault=None, num_iter=None):
             return r
 
         w._solve = solve
-        if fault is not None and fault[0] == "fb":
-            orig_ls, cnt = w.linear_solve, [0]
-
-            def ls(*a, **k):
-                n = cnt[0]
-                cnt[0] += 1
-                if n == 1 + fault[1]:  # call 0 is the initial Darcy solve before the loop
-                    raise Injected("injected failure of the inner linear solve")
-                return orig_ls(*a, **k)
-
-            w.linear_solve = ls
-        if fault is not None and fault[0] == "fa":
-            w.anderson = RaisingAnderson(w.anderson, fault[1])
+        cap["cost"] = w.l1_dissipation  # the unwrapped method, for the oracle
+        if fault is not None:
+            inj = injection(cfg, fault[0], fault[1])
+            if inj is None:
+                return None
+            attr, at = inj
+            if attr == "tol":
+                key = "tol_residual" if cfg.method == "newton" else "tol_increment"
+                w.options[key] = FaultyTol(w.options[key], at)
+            else:
+                setattr(w, attr, RaisingCallable(getattr(w, attr), at, attr))
         np.random.seed(12345)  # pyamg draws random vectors; make repeated runs comparable
         with warnings.catch_warnings(record=True) as rec:
             warnings.simplefilter("always")
             out = w(i1, i2)
         cap["warned"] = any("abruptly stopped" in str(x.message) for x in rec)
+        cap["pp_failed"] = any("Pressure post-processing failed" in str(x.message) for x in rec)
         cap["w"], cap["out"], cap["opts"] = w, out, opts
         # magnitude of the integrated masses: the source f = M (m2 - m1) carries a rounding error of eps times this
         cap["mass_scale"] = float(max(np.abs(w.mass_matrix_cells @ np.ravel(np.abs(i1.img), "F")).max(),
@@ -274,29 +430,38 @@ def run_solver(d, cfg, fault=None, num_iter=None):
 
 def criteria_met_at(cfg, hist, i):
     """documented stopping rule evaluated on entry i of the convergence history (pass i)."""
-    tol = cfg.tol
+    tr, ti, td = tols(cfg)
     with np.errstate(all="ignore"):
         try:
             if cfg.method == "newton":
-                return bool(hist["residual"][i] < tol * hist["residual"][0] and hist["flux_increment"][i] < tol * hist["flux_increment"][0]
-                            and hist["distance_increment"][i] < tol)
-            return bool(hist["aux_force_increment"][i] < tol * hist["aux_force_increment"][0]
-                        and hist["distance_increment"][i] / hist["distance"][i] < tol and hist["mass_conservation_residual"][i] < tol)
+                return bool(hist["residual"][i] < tr * hist["residual"][0] and hist["flux_increment"][i] < ti * hist["flux_increment"][0]
+                            and hist["distance_increment"][i] < td)
+            return bool(hist["aux_force_increment"][i] < ti * hist["aux_force_increment"][0]
+                        and hist["distance_increment"][i] / hist["distance"][i] < td and hist["mass_conservation_residual"][i] < tr)
         except (KeyError, IndexError):
             return False
+
+
+def fault_token(cfg, point, j):
+    branch = 0 if cfg.method == "newton" else (0 if is_update_pass(cfg, j) else 1)
+    return f"f:{branch}:{POINT_LABEL.get(point, point)}"
 
 
 def events_of(cfg, cap, fault, num_iter):
     """event sequence of a run reconstructed from public information"""
     hist = cap["info"].get("convergence_history", {})
     n_done = len(hist.get("distance", []))
+    if fault is not None and fault[0] in ("timings", "criteria") and fault[1] < n_done:
+        # the history entry of the failing pass was appended before the exception: that pass did not complete
+        n_done = fault[1] if cap["warned"] else n_done
     ev = ["ok1" if criteria_met_at(cfg, hist, i) else "ok0" for i in range(n_done)]
     broke = n_done > 0 and n_done - 1 > 1 and ev[-1] == "ok1"
     if not broke and n_done < num_iter:
         if fault is not None and fault[1] == n_done:
-            ev.append(fault[0])
+            ev.append(fault_token(cfg, fault[0], fault[1]))
         elif cap["warned"]:
-            ev.append("fb")  # a failure that was not injected (e.g. singular weights); kind unknown, repaired code treats both alike
+            # a failure that was not injected (e.g. singular weights); program point unknown, sound code treats all alike
+            ev.append(fault_token(cfg, "linearSolve", n_done))
         elif isinstance(cap["distance"], float) and np.isnan(cap["distance"]):
             ev.append("nan")
     return ev, n_done
@@ -323,7 +488,7 @@ def check_run(ctx, d, cfg, cap, fault, num_iter, label):
     sig0 = f"C04:{cfg.method}._solve"
     rp = {"kind": "run", "cfg": dict(cfg), "fault": list(fault) if fault else None, "num_iter": num_iter}
     ev, n_done = events_of(cfg, cap, fault, num_iter)
-    faulted = bool(ev) and ev[-1] in ("fb", "fa")
+    faulted = bool(ev) and ev[-1].startswith("f:")
     converged = bool(info.get("converged"))
     dist = cap["distance"]
     # (1) mass balance of the returned flux
@@ -343,7 +508,7 @@ def check_run(ctx, d, cfg, cap, fault, num_iter, label):
         ctx.fail(f"{sig0}:mass-balance:anderson={'on' if cfg.aa else 'off'}:{'full' if cfg.formulation == 'full' else 'reduced'}-formulation",
                  f"returned flux violates the discrete mass balance: |D u - f|_inf = {err:.3e} > {tol:.3e} ({label})", rp)
     # (2) reported distance is the cost of exactly the returned flux
-    cost = call(w.l1_dissipation, u)
+    cost = call(cap.get("cost", w.l1_dissipation), u)
     dist_is_cost = (not isinstance(cost, Raised)) and (
         (np.isnan(dist) and np.isnan(cost)) or abs(float(dist) - float(cost)) <= 8 * EPS * max(abs(float(cost)), 1e-300))
     if not dist_is_cost:
@@ -368,14 +533,28 @@ def check_run(ctx, d, cfg, cap, fault, num_iter, label):
     if md is None or not np.array_equal(np.ravel(md, "F"), cap["mass_diff"]):
         ctx.fail(f"{sig0}:aux(mass_diff)", f"info['mass_diff'] differs from what was solved for ({label})", rp)
     k = int(w.constrained_cell_flat_index)
-    pk = float(abs(p[k])) if nc else 0.0
     finite_p = p[np.isfinite(p)]
     if finite_p.size != p.size:
-        # non-finite pressures in other cells (CG breakdown on extreme mobility weights) are recorded, not judged: the
-        # property speaks about the flux, the distance and the pinned value
         ctx.cov["runs_with_nonfinite_pressure"] = ctx.cov.get("runs_with_nonfinite_pressure", 0) + 1
-    if not pk <= 1e-10 * max(float(np.abs(finite_p).max()) if finite_p.size else 0.0, 1e-300) + 1e-300:
-        ctx.fail(f"{sig0}:pressure-not-pinned", f"pressure of the reference cell is {p[k]!r}, not 0 ({label})", rp)
+        umax = float(np.abs(u).max()) if nf else 0.0
+        vanishing_face = nf > 0 and bool(np.any(np.abs(u) <= 1e-12 * max(umax, 1e-300)))
+        if cfg.method != "newton" and cap.get("pp_failed") and finite_p.size == 0 and vanishing_face:
+            # the documented marker of a failed pressure post-processing (singular mobility-weighted system on a face with
+            # vanishing flux): "pressure pinned at the reference cell" cannot hold -> reported, exact input class in the signature
+            ctx.fail(f"C04:{cfg.method}.__call__:pressure-unavailable(nan):singular-postprocessing:{cfg.mobility}",
+                     f"the pressure returned by Bregman is NaN: the post-processing pressure solve failed on a returned flux with a vanishing "
+                     f"face flux ({label})", rp)
+        elif cfg.method != "newton" and cfg.aa and not cap.get("pp_failed"):
+            ctx.fail(f"C04:{cfg.method}._solve:pressure-non-finite:anderson=on:{cfg.solver}",
+                     f"the returned pressure has non-finite entries ({int(p.size - finite_p.size)} of {p.size}; {label})", rp)
+        else:
+            ctx.fail(f"C04:{cfg.method}._solve:pressure-non-finite",
+                     f"the returned pressure has non-finite entries ({int(p.size - finite_p.size)} of {p.size}) outside the documented "
+                     f"post-processing failure ({label})", rp)
+    elif nc:
+        pk = float(abs(p[k]))
+        if not pk <= 1e-10 * max(float(np.abs(p).max()), 1e-300) + 1e-300:
+            ctx.fail(f"{sig0}:pressure-not-pinned", f"pressure of the reference cell is {p[k]!r}, not 0 ({label})", rp)
     # (4) honest status
     met_last = n_done > 0 and ev[n_done - 1] == "ok1" and n_done - 1 > 1
     if converged and (faulted or cap["warned"] or not met_last):
@@ -407,12 +586,12 @@ def explore(ctx, d, cfg, lines, impl):
             ctx.cov["solver_runs"] += 1
         return trunc[j]
 
-    faults = [None] + [("fb", j) for j in cfg.fault_at] + ([("fa", j) for j in cfg.fault_at] if cfg.aa else [])
+    faults = [None] + [(pt, j) for j in cfg.fault_at for pt in cfg.points]
     clean_passes = None
     for fault in faults:
         # inject only into passes the loop actually executes (Bregman solves once more after the loop; a failure there
         # propagates as an exception, which is honest and not what the property quantifies over)
-        if fault is not None and (clean_passes is None or fault[1] >= clean_passes):
+        if fault is not None and (clean_passes is None or fault[1] >= clean_passes or injection(cfg, *fault) is None):
             continue
         label = f"{cfg.method} {tuple(cfg.shape)} {cfg.masses} {cfg.formulation}/{cfg.solver} {cfg.l1}/{cfg.mobility} aa={cfg.aa} fault={fault}"
         cap = run_solver(d, cfg, fault)
@@ -433,7 +612,8 @@ def explore(ctx, d, cfg, lines, impl):
         conv, nit, dcost, n_done, ev = check_run(ctx, d, cfg, cap, fault, N, label)
         if fault is None:
             clean_passes = n_done
-        ctx.cov["events_seen"][ev[-1] if ev else "none"] = ctx.cov["events_seen"].get(ev[-1] if ev else "none", 0) + 1
+        seen = (fault[0] if fault else (ev[-1] if ev else "none"))
+        ctx.cov["events_seen"][seen] = ctx.cov["events_seen"].get(seen, 0) + 1
         # which iterate is returned: the clean run truncated to the number of completed passes
         sol_tag = None
         for j in dict.fromkeys([n_done, max(n_done - 1, 0), n_done + 1]):
@@ -446,7 +626,7 @@ def explore(ctx, d, cfg, lines, impl):
         dist_tag = sol_tag if dcost else ("none" if cap["distance"] == 0 else "other")
         lines.append(f"loop {method} gen {N} {len(ev)} " + " ".join(ev))
         impl.append(f"{int(conv)} {nit if nit is not None else 'none'} {dist_tag if dist_tag is not None else 'other'} "
-                    f"{sol_tag if sol_tag is not None else 'other'} {int(bool(ev) and (ev[-1] in ('fb', 'fa', 'nan') or (ev[-1] == 'ok1' and len(ev) - 1 > 1)))}")
+                    f"{sol_tag if sol_tag is not None else 'other'} {int(bool(ev) and (ev[-1].startswith('f:') or ev[-1] == 'nan' or (ev[-1] == 'ok1' and len(ev) - 1 > 1)))}")
         if (fault is not None or cap["warned"]) and sol_tag != n_done:
             ctx.fail(f"C04:{cfg.method}._solve:not-last-valid-iterate",
                      f"after a failure in pass {n_done} the returned solution is not the last valid iterate (matches iterate {sol_tag}; {label})", rp)
@@ -470,54 +650,158 @@ def configs(ctx):
             shape=list(shape), voxel=[2.0 ** rng.randint(-2, 0) for _ in range(dim)], masses=["dense", "compact", "single"][(i // 3) % 3],
             method=method, l1=l1s[(i // 2) % 3], mobility=mobs[i % 5], formulation=pairs[(i * 2 + i // 5) % 5][0], solver=pairs[(i * 2 + i // 5) % 5][1],
             aa=[0, 2][(i // 2) % 2], weighted=bool((i // 4) % 2), mseed=rng.randint(0, 10 ** 6),
-            num_iter=[5, 4, 6, 3][i % 4], tol=[1e-14, float(np.finfo(float).max), 1e-3][(i // 3) % 3],
+            num_iter=[5, 4, 6, 3][i % 4], tol=[1e-14, float(np.finfo(float).max), 1e-3, 1e-6][(i // 3) % 4],
+            tol_mode=["all", "distance", "residual", "increment"][(i // 2) % 4],
             # Newton: L is a cut-off of the mobility; Bregman: fixed penalty parameter (the Bregman operator is scaled by 1/L,
             # the initial Darcy operator by L_init = 1, so L != 1 distinguishes the two)
             L=(1e-2 if method == "newton" else [1.0, 0.1, 2.0, 10.0, 0.5][(i // 3 + i) % 5]),
         )
+        # every clause of the stopping rule is the binding one for every method in the first configurations
+        must = [("newton", "distance", 1e-6), ("bregman", "increment", 1e-3), ("bregman_adaptive", "residual", 1e-6),
+                ("newton", "residual", 1e-3), ("bregman", "distance", 1e-6), ("newton", "increment", 1e-3)]
+        if i < len(must) and must[i][0] == method:
+            cfg["tol_mode"], cfg["tol"], cfg["num_iter"] = must[i][1], must[i][2], 6
         k = cfg.num_iter
         cfg["fault_at"] = sorted({0, 1, rng.randint(2, k - 1) if k > 2 else 1}) if not ctx.big else list(range(0, min(k, 6)))
+        # program points: all of them in the thorough tier; in quick the inner solve always plus a rotating pair
+        cfg["points"] = list(POINTS) if ctx.big else ["linearSolve"] + [POINTS[(2 * i) % len(POINTS)], POINTS[(2 * i + 1) % len(POINTS)]]
         out.append(cfg)
     return out
 
 
-def loop_model_selfcheck(ctx):
-    """the model on exhaustive small event sequences: repaired shape obeys the theorem statements (cross-check of the driver)"""
+def loop_model_selfcheck(ctx, codes):
+    """the model on exhaustive small event sequences, with a fault at EVERY statement of the generated bodies, against an
+    independent scan of the property statement (cross-check of driver + generated code)"""
     import itertools
 
     lines, expect = [], []
-    alphabet = ["ok0", "ok1", "fb", "fa"]
-    for n in range(0, 5):
-        for L in range(0, n + 1):
-            for ev in itertools.product(alphabet, repeat=L):
-                lines.append(f"loop newton repaired {n} {L} " + " ".join(ev))
-                # reference semantics written independently: scan
-                cur, conv, it, stopped = 0, 0, 0, 0
-                for i in range(n):
-                    e = ev[i] if i < L else "ok0"
-                    it = i
-                    if e in ("fb", "fa"):
-                        stopped = 1
-                        break
-                    cur = i + 1
-                    if i > 1 and e == "ok1":
-                        conv, stopped = 1, 1
-                        break
-                expect.append(f"{conv} {it} {cur} {cur} {stopped}")
-    ctx.correspond("loop-model vs independent scan (exhaustive, num_iter<=4)", [" ".join(l.split()) for l in lines], expect)
+    for method in ("newton", "bregman"):
+        labels = []
+        for b, body in enumerate(codes[method]["bodies"]):
+            labels += [f"f:{b}:{l}" for l in dict.fromkeys(l for l, _ in body)]
+        alphabet = ["ok0", "ok1"] + labels
+        for n in range(0, 4):
+            for L in range(0, n + 1):
+                for ev in itertools.product(alphabet, repeat=L):
+                    if sum(1 for e in ev if e.startswith("f:")) > 1 or (len(ev) > 1 and any(e.startswith("f:") for e in ev[:-1])):
+                        continue
+                    lines.append(f"loop {method} gen {n} {L} " + " ".join(ev))
+                    cur, conv, it, stopped = 0, 0, 0, 0
+                    for i in range(n):
+                        e = ev[i] if i < L else "ok0"
+                        it = i
+                        if e.startswith("f:"):
+                            stopped = 1
+                            break
+                        cur = i + 1
+                        if i > 1 and e == "ok1":
+                            conv, stopped = 1, 1
+                            break
+                    expect.append(f"{conv} {it} {cur} {cur} {stopped}")
+    ctx.correspond("loop-model (generated bodies, fault at every statement) vs independent scan", [" ".join(l.split()) for l in lines], expect)
+
+
+def aux_correspondence(ctx, d):
+    """`__call__` output assembly vs the model `WAux.callOut`: `_solve` of a live solver is replaced by a stub returning a
+    chosen dyadic flat solution; cell flux, weighted flux and pressure must equal the model exactly, the transport density the
+    model's per-quadrature-point squared norms (sqrt and sum in float), the distance the volume-weighted sum of the density."""
+    W = d.measure.wasserstein
+    shapes = [(3,), (1,), (2, 3), (3, 1), (1, 4), (2, 2, 2), (1, 3, 2), (4, 3)] + ([(5,), (3, 3), (2, 1, 3), (3, 2, 2), (1, 1, 2)] if ctx.big else [])
+    l1s = ["RAVIART_THOMAS", "CONSTANT_SUBCELL_PROJECTION", "CONSTANT_CELL_PROJECTION"]
+    lines, cases = [], []
+    for n, shape in enumerate(shapes):
+        for t in range(ctx.pick(2, 4)):
+            dim = len(shape)
+            l1 = l1s[(n + t) % 3]
+            weighted = (n + t) % 2 == 1
+            cfg = Config(shape=list(shape), voxel=[2.0 ** ctx.rng.randint(-2, 1) for _ in range(dim)], masses="dense", method=["newton", "bregman"][t % 2],
+                         l1=l1, mobility="CELL_BASED", formulation="pressure", solver="direct", aa=0, weighted=False, mseed=ctx.rng.randint(0, 10 ** 6),
+                         num_iter=1, tol=1.0, L=1.0)
+            built = call(build, d, cfg)
+            if isinstance(built, Raised):
+                continue
+            w, i1, i2, opts = built
+            if weighted:
+                wimg = np.array([2.0 ** ctx.rng.randint(-1, 1) for _ in range(int(np.prod(shape)))]).reshape(shape)
+                w.weight = d.Image(wimg, space_dim=dim, dimensions=[s_ * v for s_, v in zip(shape, cfg.voxel)], scalar=True)
+                w.cell_weights = w.weight.img
+            nf, nc = int(w.grid.num_faces), int(w.grid.num_cells)
+            x = np.array([ctx.rng.randint(-12, 12) / 4.0 for _ in range(nf + nc + 1)])
+            stub_dist = call(w.l1_dissipation, x[:nf])
+            if isinstance(stub_dist, Raised):
+                continue
+            w._solve = lambda md, _x=x, _dd=stub_dist: (_dd, _x.copy(), {"converged": False, "number_iterations": 0, "convergence_history": {}})
+            out = call(w, i1, i2)
+            if l1 == "RAVIART_THOMAS":
+                pts, wq = d.quadrature.gauss_reference_cell(dim, "max")
+            elif l1 == "CONSTANT_SUBCELL_PROJECTION":
+                pts, wq = d.quadrature.reference_cell_corners(dim)
+            else:
+                pts, wq = d.quadrature.gauss_reference_cell(dim, 0)
+            pts = np.asarray(pts, dtype=float).reshape(len(wq), dim)
+            cw = np.ravel(w.cell_weights, "F")
+            line = (f"aux {dim} " + " ".join(map(str, shape)) + f" {dim} " + " ".join(fmt(v) for v in cfg.voxel) + f" {nc} " + " ".join(fmt(v) for v in cw)
+                    + f" {len(wq)} " + " ".join(fmt(v) for v in wq) + f" {pts.size} " + " ".join(fmt(v) for v in pts.ravel())
+                    + f" {len(x)} " + " ".join(fmt(v) for v in x))
+            lines.append(" ".join(line.split()))
+            cases.append((cfg, w, x, out, np.asarray(wq, dtype=float), stub_dist))
+    got = ctx.model(lines)
+    bad = 0
+    for (cfg, w, x, out, wq, stub_dist), line, resp in zip(cases, lines, got):
+        ctx.count(("aux", line[:200]), nontrivial=int(np.prod(cfg.shape)) > 1)
+        shape, dim = tuple(cfg.shape), len(cfg.shape)
+        rp = {"kind": "aux", "cfg": dict(cfg), "x": x.tolist()}
+        tagc = f"{cfg.method} {shape} {cfg.l1}"
+        if isinstance(out, Raised) or not (isinstance(out, tuple) and len(out) == 2):
+            ctx.fail(f"C04:{cfg.method}.__call__:aux-raises", f"__call__ raises {out!r} while assembling its outputs ({tagc})", rp)
+            continue
+        parts = [p.split() for p in resp.split("|")]
+        if len(parts) != 4:
+            bad += 1
+            ctx.mark("TIE-BROKEN", {"correspondence": "aux outputs", "request": line[:300], "model": resp[:200]})
+            continue
+        info = out[1]
+        cells = [np.unravel_index(c, shape, order="F") for c in range(int(np.prod(shape)))]
+        impl_flux = [fmt(info["flux"][idx][a]) for idx in cells for a in range(dim)]
+        impl_wflux = [fmt(info["weighted_flux"][idx][a]) for idx in cells for a in range(dim)]
+        impl_press = [fmt(v) for v in np.ravel(info["pressure"], "F")]
+        for name, mine, theirs in (("flux", parts[0], impl_flux), ("weighted_flux", parts[1], impl_wflux), ("pressure", parts[2], impl_press)):
+            if mine != theirs:
+                bad += 1
+                ctx.fail(f"C04:{cfg.method}.__call__:aux({name})!=model",
+                         f"info['{name}'] is not the model's function of the flat solution returned by _solve ({tagc})", rp)
+        sq = np.array([float(Fraction(v)) for v in parts[3]]).reshape(len(cells), len(wq)) if parts[3] else np.zeros((len(cells), len(wq)))
+        td_model = (np.sqrt(sq) * wq[None, :]).sum(axis=1)
+        td_impl = np.array([float(info["transport_density"][idx]) for idx in cells])
+        scale = max(float(np.abs(td_model).max()) if td_model.size else 0.0, 1e-300)
+        if td_impl.shape != td_model.shape or not np.all(np.abs(td_impl - td_model) <= 64 * EPS * len(wq) * scale):
+            bad += 1
+            ctx.fail(f"C04:{cfg.method}.__call__:aux(transport_density)!=model",
+                     f"info['transport_density'] differs from sum_q w_q |weighted cell flux at q| of the returned flux by "
+                     f"{float(np.abs(td_impl - td_model).max()) if td_impl.shape == td_model.shape else 'shape'} ({tagc})", rp)
+        vol = float(np.prod(cfg.voxel))
+        dist_model = float(vol * td_model.sum())
+        if not (out[0] == stub_dist and abs(float(out[0]) - dist_model) <= 64 * EPS * len(cells) * len(wq) * max(abs(dist_model), 1e-300)):
+            bad += 1
+            ctx.fail(f"C04:{cfg.method}.__call__:aux(distance)!=model",
+                     f"returned distance {out[0]!r} is not vol * sum(transport density) = {dist_model!r} of the returned flux ({tagc})", rp)
+    ctx.cov.setdefault("correspondence", {})["__call__ outputs vs WAux.callOut (stubbed _solve, dyadic flat solution)"] = {"cases": len(lines), "disagreements": bad}
 
 
 def run(ctx):
     import darsia as d
 
     W = d.measure.wasserstein
-    shapes = {"newton": extract_shape(W.WassersteinDistanceNewton), "bregman": extract_shape(W.WassersteinDistanceBregman)}
-    ctx.write_gen("SolveLoopGen", emit(shapes))
-    ctx.cov["generated_tables"] = {k: {"shape": v[0], "evidence": v[1]} for k, v in shapes.items()}
+    codes = {"newton": extract_code(W.WassersteinDistanceNewton), "bregman": extract_code(W.WassersteinDistanceBregman)}
+    ctx.write_gen("SolveLoopGen", emit(codes))
+    ctx.cov["generated_tables"] = {k: {"bodies": [[f"{l}/{e}" for l, e in b] for b in v["bodies"]], "tracked": v.get("tracked"),
+                                       "flags": {f: v[f] for f in ("restoreSol", "restoreDist", "flagOnBreak", "distInit", "iterInit")},
+                                       "why_not_sound": v["why"]} for k, v in codes.items()}
     ctx.prove("C04")
     ctx.cov["solver_runs"] = 0
     ctx.cov["events_seen"] = {}
-    loop_model_selfcheck(ctx)
+    loop_model_selfcheck(ctx, codes)
+    aux_correspondence(ctx, d)
     lines, impl = [], []
     cfgs = configs(ctx)
     for cfg in cfgs:
@@ -543,6 +827,9 @@ def replay(data):
     rp = data.get("replay", {})
     print("signature:", data.get("signature"))
     print("recorded :", data.get("what"))
+    if rp.get("kind") == "aux":
+        print("replay   : re-run `./check C04 quick` (the aux correspondence needs the model driver); configuration:", rp.get("cfg"))
+        return 0
     if rp.get("kind") != "run":
         print("replay   :", rp)
         return 0
